@@ -15,6 +15,7 @@ import (
 	"fmt"
 	"io"
 	"runtime"
+	"strings"
 	"sync"
 	"time"
 
@@ -415,6 +416,61 @@ func jsonNestedReadScenario(rounds int) (sh, w string) {
 				first = trunc(gotA.Rest[0], 12)
 			}
 			return "json-buffer-shared-between-connections", fmt.Sprintf("round %d: connection A decoded %d items starting %q from its message of a's while connection B read a message of b's inside A's UnmarshalJSON", r, len(gotA.Rest), first)
+		}
+	}
+	return "", ""
+}
+
+// jsonKeptResultsScenario: what a wsjson.Read handed to its caller on one connection (a RawMessage, a []byte, a
+// decoded struct) must not change when other connections — live ones and ones opened after the first was closed —
+// read their own messages afterwards: bytes received on connection A may not turn into bytes received on B.
+func jsonKeptResultsScenario(rounds int) (string, string) {
+	for r := 0; r < rounds; r++ {
+		mk := func(client bool) (*websocket.Conn, *rawPeer, *pipeEnd) {
+			a, b := newPipe()
+			return websocket.VerifNewConn(a, client, websocket.VerifCopts{}, 0), newRawPeer(b, !client), b
+		}
+		ctx, cancel := context.WithTimeout(context.Background(), 5*time.Second)
+		ca, pa, ea := mk(r%2 == 0)
+		docA := fmt.Sprintf(`{"owner":"A-%d","secret":"%s"}`, r, strings.Repeat("a", 40+r))
+		pa.writeFrame(RawFrame{Fin: true, Op: 1, Payload: []byte(docA)})
+		var raw json.RawMessage
+		if err := wsjson.Read(ctx, ca, &raw); err != nil {
+			cancel()
+			return "read-failed", fmt.Sprintf("round %d: %v", r, err)
+		}
+		pa.writeFrame(RawFrame{Fin: true, Op: 1, Payload: []byte(`"QS1ieXRlcy1BLWJ5dGVzLUEtYnl0ZXM="`)})
+		var bs []byte
+		if err := wsjson.Read(ctx, ca, &bs); err != nil {
+			cancel()
+			return "read-failed", fmt.Sprintf("round %d: %v", r, err)
+		}
+		keepRaw, keepBs := string(raw), string(bs)
+		if r%2 == 1 {
+			ca.CloseNow() // the later reads happen on connections opened after A was closed
+			ea.Close()
+		}
+		for k := 0; k < 3; k++ {
+			cb, pb, eb := mk(k%2 == 0)
+			docB := fmt.Sprintf(`{"owner":"B-%d-%d","secret":"%s"}`, r, k, strings.Repeat("b", 30+7*k+r))
+			pb.writeFrame(RawFrame{Fin: true, Op: 1, Payload: []byte(docB)})
+			var rb json.RawMessage
+			err := wsjson.Read(ctx, cb, &rb)
+			cb.CloseNow()
+			eb.Close()
+			if err != nil || string(rb) != docB {
+				cancel()
+				return "json-buffer-shared-between-connections", fmt.Sprintf("round %d: connection B%d read %q, %v; its message was %q", r, k, rb, err, docB)
+			}
+		}
+		cancel()
+		ca.CloseNow()
+		ea.Close()
+		if string(raw) != keepRaw || keepRaw != docA {
+			return "json-buffer-shared-between-connections", fmt.Sprintf("round %d: the RawMessage read on connection A was %q and reads %q after reads on other connections (its message was %q)", r, keepRaw, raw, docA)
+		}
+		if string(bs) != keepBs {
+			return "json-buffer-shared-between-connections", fmt.Sprintf("round %d: the []byte read on connection A was %q and reads %q after reads on other connections", r, keepBs, bs)
 		}
 	}
 	return "", ""
